@@ -290,7 +290,9 @@ func (ex *Exec) builtin(name string, c *ast.CallExpr) []Term {
 			ex.expr(a)
 		}
 		if ex.isCmdPkg() {
-			// in the CLI a panic is the failure exit: status 2, nothing more is printed on stdout
+			// in the CLI a panic is the failure exit: status 2, nothing more is printed on stdout - unless a deferred call of a
+			// frame it unwinds through ends the process first (deferred calls run while panicking, not after os.Exit)
+			ex.st.ghost["panicking"] = TTrue
 			ex.exitReturn(IntLit(2))
 			return nil
 		}
@@ -368,6 +370,30 @@ func (ex *Exec) callRepo(c *ast.CallExpr, fi *FuncInfo, args []Term) []Term {
 func (ex *Exec) callWith(c *ast.CallExpr, calleeName string, con *Contract, sig *types.Signature, args []Term, eff *Effects, fi *FuncInfo) []Term {
 	pnames, rnames := calleeNames(sig)
 	names := map[string]Term{}
+	// a variadic call without "...": the trailing arguments become the slice parameter
+	if sig.Variadic() && c != nil && !c.Ellipsis.IsValid() {
+		first := sig.Params().Len() - 1
+		if sig.Recv() != nil {
+			first++
+		}
+		if first <= len(args) {
+			st := ex.U.SortOf(sig.Params().At(sig.Params().Len() - 1).Type())
+			if st.Kind == KSeq {
+				packed := ex.U.SeqEmpty(st)
+				ok := true
+				for _, a := range args[first:] {
+					if a.Sort != st.Elem {
+						ok = false
+						break
+					}
+					packed = ex.U.SeqSnoc(packed, a)
+				}
+				if ok {
+					args = append(append([]Term{}, args[:first]...), packed)
+				}
+			}
+		}
+	}
 	for i, n := range pnames {
 		if i < len(args) {
 			names[n] = args[i]
